@@ -468,6 +468,16 @@ class Interp:
         elif isinstance(t, (ast.Tuple, ast.List)):
             if isinstance(val, Obj) and len(val.fields) == len(t.elts):
                 val = list(val.fields.values())
+            stars = [i_ for i_, el in enumerate(t.elts) if isinstance(el, ast.Starred)]
+            if len(stars) == 1 and isinstance(val, (list, tuple)) and len(val) >= len(t.elts) - 1:
+                # a, *rest, z = xs
+                k_ = stars[0]
+                tail_ = len(t.elts) - k_ - 1
+                val = list(val)
+                parts_ = val[:k_] + [val[k_:len(val) - tail_]] + (val[len(val) - tail_:] if tail_ else [])
+                for el, v in zip(t.elts, parts_):
+                    self.assign(el.value if isinstance(el, ast.Starred) else el, v, env, node)
+                return
             vals = val if isinstance(val, (list, tuple)) and len(val) == len(t.elts) else [UNKNOWN] * len(t.elts)
             for el, v in zip(t.elts, vals):
                 self.assign(el, v, env, node)
@@ -871,6 +881,8 @@ class Interp:
                 cv_ = self._class_const(ci_, c.func.attr, depth)           # ... or through the class name
                 if isinstance(cv_, BoundOp):
                     return self.apply(cv_, args, env, depth)
+        if isinstance(c.func, ast.Name) and isinstance(env.get(c.func.id), Sym) and env[c.func.id].tag.startswith("class:"):
+            return self.apply(env[c.func.id], args, env, depth)
         # calling a value: a local function (closure) or a symbolic callable
         fval = None
         if isinstance(c.func, ast.Name) and isinstance(env.get(c.func.id), (LocalFn, Sym)):
@@ -1461,6 +1473,15 @@ def _install():
                 return self.ev(ast.fix_missing_locations(fake), env2, depth)
             finally:
                 self._redispatch_apply = False
+        if isinstance(fv, Sym) and fv.tag.startswith("class:"):
+            # a class held in a variable is called: the rule's call model sees it as a call of that class by name
+            cname_ = fv.tag.rsplit(".", 1)[-1]
+            names_ = [f"__a{i_}" for i_ in range(len(args))]
+            fake = ast.fix_missing_locations(ast.Call(func=ast.Name(id=cname_, ctx=ast.Load()), args=[ast.Name(id=n_, ctx=ast.Load()) for n_ in names_], keywords=[]))
+            r_ = self.call_model(self, fake, dict(zip(names_, args)), list(args), {}) if self.call_model is not None else None
+            if r_ is not None:
+                return None if r_ is _NONE else r_
+            return UNKNOWN
         if isinstance(fv, Sym) and fv.tag.startswith("builtin:"):
             # a builtin function passed as a value (accumulate(xs, max), map(str, xs)): the call is evaluated as if written out
             names_ = [f"__a{i_}" for i_ in range(len(args))]
@@ -1619,6 +1640,11 @@ def _install():
                 finally:
                     self.fn_stack.pop()
                 val = LocalFn(fi.node, {}, fi, dflt_)
+        if val is None:
+            # a class of the repository used as a value (a table of classes): calling the value is calling the class
+            full = self.prog.resolve_name(mod, name)
+            if full and full in self.prog.classes:
+                val = Sym("class:" + full)
         if val is None:
             # a function of the operator module imported by name (from operator import mul)
             full = self.prog.resolve_name(mod, name)
